@@ -776,10 +776,14 @@ func c01history(h *c01hist, caseIdx int) {
 				}
 				h.apply(ti, op, k)
 			}
-		case 6, 7: // mixed
+		case 6, 7: // mixed, sometimes the same call twice in a row
 			for j := 0; j < run && !h.failed; j++ {
 				k := lo - 2 + r.IntN(hi-lo+5)
-				h.apply(ti, "APRR"[r.IntN(4)], k)
+				op := "APRR"[r.IntN(4)]
+				h.apply(ti, op, k)
+				if r.IntN(4) == 0 {
+					h.apply(ti, op, k)
+				}
 			}
 		case 8, 9: // drain
 			target := 0
